@@ -49,7 +49,7 @@ class C01(vlib.Driver):
         cases = []
         algos = evo.ALGOS
 
-        def history(nag, L, rng):
+        def history(nag, L, rng, OU=False):
             ops, n, last_clone = [], nag, None
             has_learn = False
             for _ in range(L):
@@ -57,7 +57,10 @@ class C01(vlib.Driver):
                 if r < 0.30:
                     ops.append(["learn", rng.randrange(n), rng.randrange(1000)]); has_learn = True
                 elif r < 0.38:
-                    ops.append(["score", rng.randrange(n), rng.randrange(100)])
+                    if OU and rng.random() < 0.6:
+                        ops.append(rng.choice([["explore", rng.randrange(n), rng.randrange(1000)], ["reset_noise", rng.randrange(n)]]))
+                    else:
+                        ops.append(["score", rng.randrange(n), rng.randrange(100)])
                 elif r < 0.66 and n < 4:
                     p = rng.randrange(n)
                     ops.append(["clone", p, rng.choice([None, 10 + n])]); n += 1
@@ -84,6 +87,17 @@ class C01(vlib.Driver):
                 ops.append(["learn", i, rng.randrange(1000)])
             return ops
 
+        def pre_noise(algo):
+            """exploration in training mode before the clone: the OU-noise state (arrays for DDPG/TD3, LISTS of tensors for
+            MADDPG/MATD3) is non-zero when the copy is made"""
+            return [["explore", 0, 1], ["explore", 0, 2]] if algo in evo.OU_ALGOS else []
+
+        def noise_ops(algo):
+            """... then one of the two zeroes its noise state in place / explores on: the other's must not move"""
+            if algo not in evo.OU_ALGOS:
+                return []
+            return [["reset_noise", 0], ["explore", 2, 3], ["explore", 2, 4], ["reset_noise", 2], ["explore", 0, 5]]
+
         def custom_cases(pairs):
             """agents built from plain torch networks wrapped by MakeEvolvable (actor_network=...): clone, mutate the clone's
             architecture, then look back at the parent and clone the parent again (its init dict must be its own)"""
@@ -99,7 +113,7 @@ class C01(vlib.Driver):
             return out
 
         def add(algo, family, share, netcfg, L, seed, nag=2, wrapper=False):
-            ops = history(nag, L, rng)
+            ops = history(nag, L, rng, OU=algo in evo.OU_ALGOS)
             c = {"algo": algo, "family": family, "share": share, "netcfg": netcfg, "seed": seed, "pop": nag, "ops": ops}
             if wrapper:
                 c["wrapper"] = True
@@ -112,9 +126,9 @@ class C01(vlib.Driver):
                 cases.append({"algo": algo, "family": "vector", "share": share, "netcfg": "partial", "seed": 1, "pop": 2, "tags": True,
                               # an ODD number of learn steps before the first clone, then parent and clone learn from
                               # policy_freq + 1 = 3 consecutive identical batches (delayed-update counters must be copied)
-                              "ops": [["learn", 0, 1], ["learn", 0, 2], ["learn", 0, 9], ["score", 0, 3], ["clone", 0, None],
+                              "ops": [["learn", 0, 1], ["learn", 0, 2], ["learn", 0, 9], ["score", 0, 3]] + pre_noise(algo) + [["clone", 0, None],
                                       ["act", 0, 5], ["act", 2, 5, 0], ["learn", 0, 3], ["learn", 2, 3, 0],
-                                      ["learn", 0, 4], ["learn", 2, 4, 0], ["learn", 0, 6], ["learn", 2, 6, 0],
+                                      ["learn", 0, 4], ["learn", 2, 4, 0], ["learn", 0, 6], ["learn", 2, 6, 0]] + noise_ops(algo) + [
                                       ["mutate", 1, "arch", 5], ["clone", 1, 9], ["learn", 1, 8], ["learn", 3, 8, 1],
                                       ["mutate", 2, "param", 6], ["score", 0, 3], ["score", 1, 9], ["score", 2, 4],
                                       ["score", 3, 1], ["select", [1], True], ["learn", 0, 1], ["learn", 1, 2],
@@ -227,6 +241,10 @@ class C01(vlib.Driver):
                 if len(op) > 3:
                     rec["pair"] = [op[3], op[1]]
                 rec["action"] = evo.greedy(pop[op[1]], spec, op[2])
+            elif k == "explore":      # get_action in training mode: exploration noise state advances
+                rec["action"] = evo.explore(pop[op[1]], spec, op[2])
+            elif k == "reset_noise":  # reset_action_noise([0]): in-place write of the OU-noise state
+                evo.reset_noise(pop[op[1]])
             elif k == "clone":
                 p = pop[op[1]]
                 c = p.clone() if op[2] is None else p.clone(index=op[2])
@@ -277,7 +295,7 @@ class C01(vlib.Driver):
                 ops.append("Learn {}%nat [{}]".format(op[1], "; ".join(f"({tab.name(o)}, {d['nstate']}%nat)" for o, d in st.items())))
             elif k == "score":
                 ops.append(f"Score {op[1]}%nat")
-            elif k == "act":
+            elif k in ("act", "explore", "reset_noise"):    # all three may write the ext tensors / buffers of one member
                 ops.append(f"Act {op[1]}%nat")
             elif k == "clone":
                 ops.append(f"Clone {op[1]}%nat {'None' if op[2] is None else '(Some %d)' % op[2]}")
@@ -358,7 +376,7 @@ class C01(vlib.Driver):
                 out.append(Violation("raises", sig("raises", k), f"{what} raised {rec['error']}\n{rec.get('trace', '')[-600:]}"))
                 break
             before, after = states[t], states[t + 1]
-            if k in ("learn", "score", "mutate", "act"):
+            if k in ("learn", "score", "mutate", "act", "explore", "reset_noise"):
                 for j in range(len(before)):
                     if j != op[1] and not unchanged(before[j], after[j], j, what):
                         break
@@ -528,7 +546,7 @@ class C01(vlib.Driver):
     def _valid(case):
         n = case["pop"]
         for o in case["ops"]:
-            if o[0] in ("learn", "score", "mutate", "clone", "discard", "act") and o[1] >= n:
+            if o[0] in ("learn", "score", "mutate", "clone", "discard", "act", "explore", "reset_noise") and o[1] >= n:
                 return False
             if o[0] in ("learn", "act") and len(o) > 3 and o[3] >= n:
                 return False
